@@ -131,6 +131,47 @@ FreshOps ==
            SAsg(e, EBin("+", e, EArr(<<Num(6)>>))), SAsg(EIdx(a, Num(1)), Num(8)), Obs,
            SAsg(c, EBin("+", c, EArr(<<Num(7)>>))), SAsg(EIdx(c, EUn("-", Num(1))), Num(4)), Obs>>, <<app, pre, cut>>) : r \in Results }
 
+\* 11c. the loop variable of a range over an array of composites refers to the element of the current iteration: a
+\* reference taken from it keeps referring to THAT element when the loop goes on; assigning another composite to the
+\* loop variable leaves that composite alone in the next iteration
+LoopRefs ==
+  LET TN == TArr(T_num)   TNN == TArr(TArr(T_num))   TM == TMap(T_num)   TAM == TArr(TMap(T_num))
+      arr == EVar("arr", TNN)   row == EVar("row", TN)   keep == EVar("keep", TN)   picked == EVar("picked", TNN)   spare == EVar("spare", TN)
+      ms == EVar("ms", TAM)   mr == EVar("mr", TM)   mk == EVar("mk", TM)   byname == EVar("byname", TMap(TMap(T_num)))
+      Obs1 == Pr(<<arr, keep, picked, spare>>)
+      Obs2 == Pr(<<ms, mk, byname>>)
+  IN { P(<<SInfer("arr", EArr(<<EArr(<<Num(1)>>), EArr(<<Num(2)>>), EArr(<<Num(3)>>)>>)), SDecl("keep", TN), SDecl("picked", TNN), SInfer("spare", EArr(<<Num(7)>>)),
+           SFor("row", "arr", <<arr>>, <<SIf(<<EBin("==", EIdx(row, Num(0)), Num(k))>>, << <<SAsg(keep, row)>> >>, <<>>),
+                                          SAsg(picked, EBin("+", picked, EArr(<<row>>))), Pr(<<row, keep>>)>>),
+           Obs1, SAsg(EIdx(keep, Num(0)), Num(9)), SAsg(EIdx(EIdx(picked, Num(0)), Num(0)), Num(8)), Obs1>>, <<>>) : k \in 1..3 }
+     \cup { P(<<SInfer("arr", EArr(<<EArr(<<Num(1)>>), EArr(<<Num(2)>>), EArr(<<Num(3)>>)>>)), SDecl("keep", TN), SDecl("picked", TNN), SInfer("spare", EArr(<<Num(7)>>)),
+               SFor("row", "arr", <<arr>>, <<Pr(<<row>>), SIf(<<EBin("==", EIdx(row, Num(0)), Num(k))>>, << <<SAsg(row, spare), SAsg(EIdx(row, Num(0)), Num(70))>> >>, <<>>), Pr(<<row, spare>>)>>),
+               Obs1>>, <<>>) : k \in 1..3 }
+     \cup { P(<<SInfer("ms", EArr(<<EMap(<<K_k>>, <<Num(1)>>), EMap(<<K_k>>, <<Num(2)>>), EMap(<<K_k>>, <<Num(3)>>)>>)), SDecl("mk", TM), SDecl("byname", TMap(TMap(T_num))),
+               SFor("mr", "arr", <<ms>>, <<SIf(<<EBin("==", EDot(mr, K_k), Num(k))>>, << <<SAsg(mk, mr)>> >>, <<>>),
+                                            SAsg(EIdx(byname, ECallB("sprint", <<EDot(mr, K_k)>>)), mr)>>),
+               Obs2, SAsg(EDot(mk, K_k), Num(9)), Obs2>>, <<>>) : k \in 1..3 }
+
+\* 11d. a literal makes a new container every time it is evaluated: in a function called several times, in a loop;
+\* deleting from / adding to / storing into one of them shows in no other
+LitFresh ==
+  LET TM == TMap(T_num)   TN == TArr(T_num)
+      mkm(n) == FuncDef("mk", <<>>, <<>>, TM, <<SRetV(EMap(SubSeq(<<<<97>>, <<98>>, <<99>>, <<100>>, <<101>>, <<102>>>>, 1, n), [i \in 1..n |-> Num(i)]), TM)>>)
+      mka(n) == FuncDef("mk", <<>>, <<>>, TN, <<SRetV(EArr([i \in 1..n |-> Num(i)]), TN)>>)
+      p == EVar("p", TM)   q == EVar("q", TM)   r == EVar("r", TM)
+      pa == EVar("p", TN)   qa == EVar("q", TN)   ra == EVar("r", TN)
+      Call(f) == ECallU("mk", FSig(f), <<>>)
+  IN { P(<<SInfer("p", Call(mkm(n))), SCall(ECallB("del", <<p, EStr(<<97>>)>>)), SInfer("q", Call(mkm(n))), SAsg(EDot(q, <<122>>), Num(26)), SAsg(EDot(p, <<121>>), Num(25)),
+           SInfer("r", Call(mkm(n))), Pr(<<p, q, r, ECallB("len", <<r>>), ECallB("has", <<r, EStr(<<97>>)>>)>>),
+           SFor("k", "map", <<r>>, <<Pr(<<EVar("k", T_str), EIdx(r, EVar("k", T_str))>>)>>), Pr(<<p, q>>)>>, <<mkm(n)>>) : n \in 2..6 }
+     \cup { P(<<SInfer("p", Call(mka(n))), SAsg(EIdx(pa, Num(0)), Num(9)), SInfer("q", Call(mka(n))), SAsg(qa, EBin("+", qa, EArr(<<Num(8)>>))),
+               SInfer("r", Call(mka(n))), Pr(<<pa, qa, ra>>)>>, <<mka(n)>>) : n \in 1..3 }
+     \cup { P(<<SDecl("all", TArr(TM)),
+               SFor("i", "num", <<Num(3)>>, <<SInfer("t", EMap(<<<<97>>, <<98>>, <<99>>>>, <<Num(1), Num(2), Num(3)>>)),
+                                              SIf(<<EBin("==", EVar("i", T_num), Num(0))>>, << <<SCall(ECallB("del", <<EVar("t", TM), EStr(<<97>>)>>))>> >>, << <<SAsg(EDot(EVar("t", TM), <<122>>), EVar("i", T_num))>> >>),
+                                              SAsg(EVar("all", TArr(TM)), EBin("+", EVar("all", TArr(TM)), EArr(<<EVar("t", TM)>>))), Pr(<<EVar("t", TM)>>)>>),
+               Pr(<<EVar("all", TArr(TM))>>)>>, <<>>) }
+
 \* 12. err and errmsg are ordinary bool / string variables that conversions update
 ErrV == EVar("err", T_bool)
 ErrM == EVar("errmsg", T_str)
@@ -205,7 +246,7 @@ Progs ==
   \cup UNION {{ByAny(td, kd), ByAnyElem(td, kd)} : td \in TDs \ {td \in TDs : td.ty = T_any}, kd \in {"assign"}}
   \cup UNION {{ByAny(td, "inplace"), ByAnyElem(td, "inplace")} : td \in Comp}
   \cup UNION {{Fresh(td, how, kd) : how \in {"slice", "slice1", "concat", "rep"}, kd \in {"assign", "inplace"}} : td \in Arrs}
-  \cup ErrProgs \cup RepAnyProgs \cup FreshOps
+  \cup ErrProgs \cup RepAnyProgs \cup FreshOps \cup LoopRefs \cup LitFresh
 
 FamCases == {MkCase("FamAlias", IF p \in ErrProgs THEN "err" ELSE "alias", p) : p \in Progs}
 FamInit == InitWith(FamCases)
